@@ -202,10 +202,12 @@ def parse_failing(out):
 
 
 class Check:
-    def __init__(self, prop, tier, seed):
+    def __init__(self, prop, tier, seed, parent=None, scale=1.0):
         self.prop = prop
         self.tier = tier
         self.seed = seed
+        self.parent = parent        # set when this is the tie of a HYPOTHESIS of parent's theorem (see absorb)
+        self.scale = scale          # budget factor for ck.n()
         self.rng = random.Random(seed)
         self.t0 = time.time()
         self.violations = []        # list of (replay_path, suffix)
@@ -223,18 +225,48 @@ class Check:
         self.broken = []            # names of theorems / correspondences that no longer check
         self.viol_by_what = {}
         self.suppressed = 0
+        self.known_skipped = 0
         os.makedirs(EVIDENCE_DIR, exist_ok=True)
         os.makedirs(REPLAY_DIR, exist_ok=True)
         os.makedirs(CASEDIR, exist_ok=True)
         self.known_findings = [k for k in load_known() if k.get('property') == prop]
         import glob
-        if os.environ.get('VERIF_REPLAY') != '1':
+        if os.environ.get('VERIF_REPLAY') != '1' and parent is None:
             for old in glob.glob(os.path.join(REPLAY_DIR, prop + '-*.json')):
                 os.unlink(old)
 
     # ------------------------------------------------------------------ budget
     def n(self, quick, thorough):
-        return thorough if self.tier == 'thorough' else quick
+        x = thorough if self.tier == 'thorough' else quick
+        return x if self.scale == 1.0 else max(1, int(x * self.scale))
+
+    # ------------------------------------------------------------------ hypotheses of the theorems
+    def absorb(self, sub, text, wall):
+        """`sub` ran the tie of property sub.prop, which is a HYPOTHESIS of this property's theorems (e.g. C01's
+        theorems are about a store that is a faithful map = C06).  Its obligations, cases and violations become
+        part of this check: a code change that breaks the hypothesis breaks this property's claim, and the failing
+        input found for the hypothesis is the replay (marked via_hypothesis; `bin/check <this> --replay` dispatches)."""
+        tag = 'hypothesis %s' % sub.prop
+        for o in sub.obligations:
+            o = dict(o)
+            o['name'] = '%s: %s' % (tag, o['name'])
+            self.obligations.append(o)
+        self.case_total += sub.case_total
+        self.case_distinct |= sub.case_distinct
+        for k, v in sub.dist.items():
+            self.dist['%s/%s' % (sub.prop, k)] = v
+        self.dist['%s wall_s' % tag] = round(wall, 1)
+        for b in sub.broken:
+            self.broken.append('%s (%s): %s' % (tag, text, b))
+        self.violations.extend(sub.violations)
+        self.suppressed += sub.suppressed
+        for k, v in sub.viol_by_what.items():
+            self.viol_by_what['%s: %s' % (tag, k)] = v
+        self.assumptions.append('%s - %s: its theorems are re-checked and its tie to the code is re-run here with a reduced budget '
+                                '(%d cases, %d violations)' % (tag, text, sub.case_total, len(sub.violations) + sub.suppressed))
+        if sub.known_skipped:
+            self.assumptions.append('%s: %d observations matched a known finding of %s (reported by that property\'s own check)'
+                              % (tag, sub.known_skipped, sub.prop))
 
     # ------------------------------------------------------------------ proofs
     def prove(self, extra_targets=()):
@@ -350,9 +382,15 @@ class Check:
 
     # ------------------------------------------------------------------ verdicts
     def write_replay(self, obj):
-        self.replay_n += 1
-        path = os.path.join(REPLAY_DIR, '%s-%d-%d.json' % (self.prop, self.seed, self.replay_n))
         obj = dict(obj)
+        if self.parent is not None:     # the tie of a hypothesis: the replay belongs to the parent's property
+            top = self.parent
+            obj['via_hypothesis'] = self.prop
+            obj['property'] = top.prop
+        else:
+            top = self
+        top.replay_n += 1
+        path = os.path.join(REPLAY_DIR, '%s-%d-%d.json' % (top.prop, top.seed, top.replay_n))
         obj.setdefault('property', self.prop)
         obj.setdefault('seed', self.seed)
         obj.setdefault('tier', self.tier)
@@ -373,6 +411,9 @@ class Check:
         for k in self.known_findings:
             if k.get('status') == 'known' and cls is not None and k.get('classifier') == cls:
                 line = 'KNOWN-FINDING: property=%s %s' % (self.prop, k.get('summary', cls))
+                if self.parent is not None:
+                    self.known_skipped += 1
+                    return None
                 if line not in self.known_lines:
                     self.known_lines.append(line)
                 return None
